@@ -269,31 +269,106 @@ Proof.
   repeat rewrite <- app_assoc. simpl. repeat rewrite <- app_assoc. reflexivity.
 Qed.
 
-(* path_spec: the model's chunk path is the documented one *)
-Lemma chunk_path_spec : forall c f k co, simple_comp k = true ->
-  chunk_path c f k co = base c ++ spec_chunk_rel f k co.
+(* str.split("/") + pathlib's filter distributes over a '/' *)
+Lemma keep_split_app : forall a b cur,
+  filter keep_comp (split_slash_aux (a ++ slash :: b) cur)
+  = filter keep_comp (split_slash_aux a cur) ++ filter keep_comp (split_slash_aux b []).
 Proof.
-  intros c f k co Hk. apply simple_comp_facts in Hk as [Hns [Hkeep [_ Hne]]].
-  unfold chunk_path, unchecked_path. destruct f.
-  - rewrite chunk_str_flat_eq, (root_kind_rel k _ Hne Hns). f_equal.
-    unfold parse_parts, split_slash. rewrite split_at_slash by exact Hns.
-    rewrite split_no_slash by (apply name_char_no_slash, spec_flat_name_chars).
-    simpl rev. simpl app. simpl filter. rewrite Hkeep.
-    rewrite (keep_name _ (spec_flat_name_chars co) (spec_flat_name_nonempty co)). reflexivity.
-  - rewrite chunk_str_deep_eq, (root_kind_rel k _ Hne Hns). f_equal.
-    unfold parse_parts, split_slash. rewrite split_at_slash by exact Hns.
-    rewrite split_at_slash by (apply name_char_no_slash, spec_axis_chars).
-    rewrite split_at_slash by (apply name_char_no_slash, spec_axis_chars).
-    rewrite split_no_slash by (apply name_char_no_slash, spec_axis_chars).
-    simpl rev. simpl app. simpl filter. rewrite Hkeep.
-    rewrite !(keep_name _ (spec_axis_chars _ _) (spec_axis_nonempty _ _)). reflexivity.
+  induction a as [|x a IH]; intros b cur.
+  - simpl. destruct (keep_comp (rev cur)); reflexivity.
+  - simpl. destruct (x =? slash).
+    + simpl. rewrite IH. destruct (keep_comp (rev cur)); reflexivity.
+    + apply IH.
 Qed.
 
-Lemma chunk_path_inj : forall c f k co k' co',
-  simple_comp k = true -> simple_comp k' = true ->
-  chunk_path c f k co = chunk_path c f k' co' -> k = k' /\ co = co'.
+Lemma parse_parts_app : forall a b, parse_parts (a ++ slash :: b) = parse_parts a ++ parse_parts b.
+Proof. intros. unfold parse_parts, split_slash. apply keep_split_app. Qed.
+
+Lemma parse_parts_name : forall l, Forall name_char l -> l <> [] -> parse_parts l = [l].
 Proof.
-  intros c f k co k' co' Hk Hk' E.
-  rewrite !chunk_path_spec in E by assumption. apply app_inv_head in E.
-  apply spec_chunk_rel_inj in E. exact E.
+  intros l H Hne. unfold parse_parts, split_slash.
+  rewrite split_no_slash by (apply name_char_no_slash; exact H). simpl.
+  rewrite (keep_name l H Hne). reflexivity.
+Qed.
+
+Lemma parse_flat_tail : forall co, parse_parts (spec_flat_name co) = spec_chunk_tail true co.
+Proof. intro co. apply parse_parts_name; [apply spec_flat_name_chars | apply spec_flat_name_nonempty]. Qed.
+
+Lemma parse_deep_tail : forall co,
+  parse_parts (spec_axis (cx0 co) (cx1 co) ++ slash :: spec_axis (cy0 co) (cy1 co)
+               ++ slash :: spec_axis (cz0 co) (cz1 co)) = spec_chunk_tail false co.
+Proof.
+  intro co. rewrite !parse_parts_app.
+  rewrite !parse_parts_name by (try apply spec_axis_chars; apply spec_axis_nonempty). reflexivity.
+Qed.
+
+Lemma name_not_dotdot : forall l, Forall name_char l -> is_dotdot l = false.
+Proof.
+  intros l H. apply bytes_eqb_neq. intro E. subst l. inversion H as [|? ? Hx Hl]; subst.
+  destruct Hx as [[Ha Hb]|[Ha|Ha]]; lia.
+Qed.
+
+Lemma tail_no_dotdot : forall f co, existsb is_dotdot (spec_chunk_tail f co) = false.
+Proof.
+  intros f co. destruct f; simpl.
+  - rewrite (name_not_dotdot _ (spec_flat_name_chars co)). reflexivity.
+  - rewrite !(name_not_dotdot _ (spec_axis_chars _ _)). reflexivity.
+Qed.
+
+Lemma root_kind_rel_key : forall k r, k <> [] -> is_absolute k = false -> root_kind (k ++ r) = 0%nat.
+Proof.
+  intros k r Hne Ha. destruct k as [|x k]; [contradiction|]. simpl in *.
+  destruct (x =? slash) eqn:E; [|reflexivity]. unfold slash in E. congruence.
+Qed.
+
+(* path_spec: for a non-empty relative key the model's chunk path is the
+   documented one (key components, then the flat name or the three axis
+   directories), and keys mentioning ".." are refused *)
+Lemma chunk_path_spec : forall c f k co, k <> [] -> is_absolute k = false ->
+  chunk_path c f k co = option_map (app (base c)) (spec_chunk_name f k co).
+Proof.
+  intros c f k co Hne Ha. unfold chunk_path, checked_path_gen, spec_chunk_name, spec_key.
+  destruct k as [|x k'] eqn:Ek; [contradiction|]. rewrite <- Ek in *. rewrite Ha.
+  assert (Hparse : parse_parts (if f then chunk_str_flat k co else chunk_str_deep k co)
+                   = parse_parts k ++ spec_chunk_tail f co).
+  { destruct f.
+    - rewrite chunk_str_flat_eq, parse_parts_app, parse_flat_tail. reflexivity.
+    - rewrite chunk_str_deep_eq, parse_parts_app, parse_deep_tail. reflexivity. }
+  assert (Hroot : root_kind (if f then chunk_str_flat k co else chunk_str_deep k co) = 0%nat).
+  { destruct f; [rewrite chunk_str_flat_eq | rewrite chunk_str_deep_eq]; apply root_kind_rel_key; assumption. }
+  rewrite Hroot, Hparse. unfold rel_ok. rewrite existsb_app, tail_no_dotdot, orb_false_r. simpl andb.
+  unfold parse_parts. rewrite andb_true_r.
+  destruct (existsb is_dotdot (filter keep_comp (split_slash k))); reflexivity.
+Qed.
+
+Lemma spec_chunk_tail_inj : forall f co co', spec_chunk_tail f co = spec_chunk_tail f co' -> co = co'.
+Proof.
+  intros f co co' E. destruct f; simpl in E.
+  - inversion E as [Hn]. apply spec_flat_name_inj. exact Hn.
+  - inversion E as [[H1 H2 H3]].
+    apply spec_axis_inj in H1 as [? ?], H2 as [? ?], H3 as [? ?]. apply coords_eq; assumption.
+Qed.
+
+Lemma tail_length : forall f co co', length (spec_chunk_tail f co) = length (spec_chunk_tail f co').
+Proof. intros [] co co'; reflexivity. Qed.
+
+(* different (key components, coordinates) give different paths *)
+Lemma chunk_path_inj : forall c f k co k' co' p,
+  k <> [] -> is_absolute k = false -> k' <> [] -> is_absolute k' = false ->
+  chunk_path c f k co = Some p -> chunk_path c f k' co' = Some p ->
+  spec_key k = spec_key k' /\ co = co'.
+Proof.
+  intros c f k co k' co' p Hk Ha Hk' Ha' E1 E2.
+  rewrite chunk_path_spec in E1, E2 by assumption. unfold spec_chunk_name in *.
+  destruct (spec_key k) as [kp|] eqn:Es; [|discriminate].
+  destruct (spec_key k') as [kp'|] eqn:Es'; [|discriminate].
+  simpl in E1, E2. inversion E1 as [H1]. inversion E2 as [H2]. rewrite <- H2 in H1.
+  apply app_inv_head in H1.
+  assert (Hl : length kp = length kp').
+  { apply (f_equal (@length _)) in H1. rewrite !app_length, (tail_length f co co') in H1. lia. }
+  assert (Hkp : kp = kp').
+  { apply (f_equal (firstn (length kp))) in H1.
+    rewrite firstn_app, firstn_all, Nat.sub_diag in H1. simpl in H1. rewrite app_nil_r in H1.
+    rewrite Hl, firstn_app, firstn_all, Nat.sub_diag in H1. simpl in H1. rewrite app_nil_r in H1. exact H1. }
+  subst kp'. apply app_inv_head in H1. split; [reflexivity | eapply spec_chunk_tail_inj; exact H1].
 Qed.
